@@ -1,4 +1,4 @@
 ---- MODULE MC_NodeLifecycle ----
 EXTENDS NodeLifecycle
-View == <<run, epoch, hs, ann, done, sync, ntx, gate, pend, emitted, stopReq, stopRet, phases, saved, locTop, steps>>
+View == <<run, epoch, hs, ann, done, sync, ntx, gate, pend, emitted, stopReq, stopRet, phases, saved, locTop, fed, steps>>
 ====
